@@ -173,6 +173,9 @@ class AddInterp:
     def stmt(self, s, st):
         if isinstance(s, ast.Expr) and isinstance(s.value, ast.Constant):
             return
+        from ..match import is_noise_stmt
+        if is_noise_stmt(s):
+            return
         if isinstance(s, ast.If):
             c = self.cond(s.test, st)
             if isinstance(c, tuple):
@@ -223,7 +226,8 @@ class AddInterp:
                     return
             raise Inconclusive(f'unrecognised assignment in add(): {ast.unparse(s)}')
         if isinstance(s, ast.For) and _is_self_attr(s.iter, 'warmup_set') and isinstance(s.target, ast.Name):
-            body = [b for b in s.body if not isinstance(b, ast.Pass)]
+            from ..match import is_noise_stmt
+            body = [b for b in s.body if not isinstance(b, ast.Pass) and not is_noise_stmt(b)]
             ok = len(body) == 1 and isinstance(body[0], ast.Expr) and isinstance(body[0].value, ast.Call)
             if ok:
                 c = body[0].value
